@@ -1,7 +1,8 @@
 (* Cfb: model of the compound-file (MS-CFB) reader of calamine, src/cfb.rs:
      Header::from_reader, Cfb::new (DIFAT walk, FAT load, directory chain, root entry,
-     mini stream, mini FAT), Sectors::get / get_chain, Directory::from_slice, Cfb::get_stream,
-     Cfb::has_directory;
+     mini stream, mini FAT), Sectors::get / get_chain, Directory::from_slice, Cfb::children,
+     Cfb::find, Cfb::get_stream, Cfb::has_directory (entries are found by their PATH from the root
+     storage, following the child / sibling ids, since the fix of audit finding G8);
    the specification side: a container (sector size, storages, named streams), a physical layout
    (placement of every FAT / DIFAT / directory / mini-FAT / mini-stream / stream sector, directory
    slots, free sectors, padding), the encoder cfb_write and the validity predicate.
@@ -88,7 +89,7 @@ Definition read_exact (n : N) (r : list N) : outcome (list N * list N) :=
   if lenN r <? n then Err ERR_IO else Ok (takeN n r, dropN n r).
 
 (* ------------------------------------------------------------------ Directory::from_slice *)
-Record dirent := { d_name : list N; d_start : N; d_len : N }.
+Record dirent := { d_name : list N; d_left : N; d_right : N; d_child : N; d_start : N; d_len : N }.
 
 (* UTF_16LE.decode_without_bom_handling(&buf[..64]) (since the fix of class bom_name: before it,
    Encoding::decode sniffed a byte-order mark), then the String is cut at its first NUL. *)
@@ -97,14 +98,20 @@ Definition decode_name (b : list N) : list N := take_until_nul (utf16le_decode_b
 Definition from_slice (buf : list N) (ss : N) : outcome dirent :=
   if (length buf <? 64)%nat then Panic else            (* &buf[..64] *)
   let name := decode_name (firstn 64 buf) in
+  if (length buf <? 80)%nat then Panic else            (* &buf[68..72], &buf[72..76], &buf[76..80] *)
+  let lft := u32_at buf 68 in
+  let rgt := u32_at buf 72 in
+  let chd := u32_at buf 76 in
   if (length buf <? 120)%nat then Panic else           (* &buf[116..120] *)
   let start := u32_at buf 116 in
   if ss =? 512 then
     if (length buf <? 124)%nat then Panic              (* &buf[120..124] *)
-    else Ok {| d_name := name; d_start := start; d_len := u32_at buf 120 |}
+    else Ok {| d_name := name; d_left := lft; d_right := rgt; d_child := chd;
+               d_start := start; d_len := u32_at buf 120 |}
   else
     if (length buf <? 128)%nat then Panic              (* &buf[120..128] *)
-    else Ok {| d_name := name; d_start := start; d_len := u64_at buf 120 |}.
+    else Ok {| d_name := name; d_left := lft; d_right := rgt; d_child := chd;
+               d_start := start; d_len := u64_at buf 120 |}.
 
 (* ------------------------------------------------------------------ Sectors *)
 Record sectors := { sdata : list N; ssize : N }.
@@ -250,14 +257,89 @@ Definition cfb_new (fuel : nat) (file : list N) : outcome (cfb * list N) :=
              mini_sectors := {| sdata := []; ssize := 64 |}; mini_fats := [] |}, r3)
   end.
 
+(* the flat scan `directories.iter().find(|d| d.name == name)` (all there was before the fix of G8;
+   now the lookup of a file that carries no hierarchy) *)
 Definition find_dir (name : list N) (ds : list dirent) : option dirent :=
   find (fun d => list_eqb (d_name d) name) ds.
 
-Definition has_directory (c : cfb) (name : list N) : bool :=
-  existsb (fun d => list_eqb (d_name d) name) (directories c).
+(* slice::get(i) with an index that may be as large as 0xFFFFFFFF (no unary number is built) *)
+Fixpoint nthN (A : Type) (l : list A) (i : N) : option A :=
+  match l with
+  | [] => None
+  | x :: r => if i =? 0 then Some x else nthN r (N.pred i)
+  end.
 
-Definition get_stream (c : cfb) (name : list N) (r : list N) : outcome (list N * cfb * list N) :=
-  match find_dir name (directories c) with
+(* Cfb::children, the loop:
+     while let Some(id) = todo.pop() {
+       if let Some(d) = self.directories.get(id) {
+         if !replace(&mut seen[id], true) { children.push(id); todo.push(d.right); todo.push(d.left); } } }
+   [todo]: the stack, top first; [seen]: the ids whose flag is set; [acc]: children, last first.
+   One unit of fuel per pop. *)
+Fixpoint children_loop (fuel : nat) (ds : list dirent) (seen todo acc : list N) : outcome (list N) :=
+  match todo with
+  | [] => Ok (rev acc)
+  | id :: rest =>
+    match fuel with
+    | O => OutOfFuel
+    | S f =>
+      match nthN ds id with
+      | Some d =>
+        if memN id seen then children_loop f ds seen rest acc
+        else children_loop f ds (id :: seen) (d_left d :: d_right d :: rest) (id :: acc)
+      | None => children_loop f ds seen rest acc
+      end
+    end
+  end.
+
+(* every entry is pushed-from at most once (two pushes each), plus the first id: the loop pops at
+   most 2 * len + 1 times (Cfb_proofs.children_loop_fuel: this fuel is never exhausted) *)
+Definition children_fuel (ds : list dirent) : nat := S (2 * length ds).
+
+(* Cfb::children(parent): seen = [i == 0 for i in 0..len] (the root entry is nobody's child),
+   todo = [directories.get(parent)?.child].  The fuel is never exhausted
+   (Cfb_proofs.children_loop_fuel), so the last branch is dead. *)
+Definition children (ds : list dirent) (parent : N) : list N :=
+  match nthN ds parent with
+  | None => []
+  | Some d =>
+    match children_loop (children_fuel ds) ds [0] [d_child d] [] with
+    | Ok l => l
+    | _ => []
+    end
+  end.
+
+(* the closure of find: the entry with that id exists and carries the name (directories.get, no index) *)
+Definition name_is (ds : list dirent) (name : list N) (i : N) : bool :=
+  match nthN ds i with Some d => list_eqb (d_name d) name | None => false end.
+
+(* the for loop of Cfb::find: id = self.children(id).into_iter().find(..)? per path component *)
+Fixpoint find_from (ds : list dirent) (id : N) (path : list (list N)) : option N :=
+  match path with
+  | [] => Some id
+  | name :: rest =>
+    match find (name_is ds name) (children ds id) with
+    | Some i => find_from ds i rest
+    | None => None
+    end
+  end.
+
+Fixpoint last_opt (A : Type) (l : list A) : option A :=
+  match l with [] => None | [x] => Some x | _ :: r => last_opt r end.
+
+(* Cfb::find(path): a root entry that links to no child = no hierarchy: flat scan for the last
+   name of the path; otherwise the path is followed from the root entry *)
+Definition find_entry (ds : list dirent) (path : list (list N)) : option dirent :=
+  match children ds 0 with
+  | [] => match last_opt path with Some name => find_dir name ds | None => None end
+  | _ :: _ => match find_from ds 0 path with Some id => nthN ds id | None => None end
+  end.
+
+(* Cfb::has_directory(name) = self.find(&[name]).is_some(): an entry of the ROOT storage *)
+Definition has_directory (c : cfb) (name : list N) : bool :=
+  match find_entry (directories c) [name] with Some _ => true | None => false end.
+
+Definition get_stream (c : cfb) (path : list (list N)) (r : list N) : outcome (list N * cfb * list N) :=
+  match find_entry (directories c) path with
   | None => Err ERR_NOT_FOUND
   | Some d =>
     if d_len d =? 0 then Ok ([], c, r)        (* an empty stream owns no sector *)
@@ -271,10 +353,10 @@ Definition get_stream (c : cfb) (name : list N) (r : list N) : outcome (list N *
                 mini_sectors := mini_sectors c; mini_fats := mini_fats c |}, r1)
   end.
 
-(* open and read one stream *)
-Definition cfb_get_stream (fuel : nat) (file : list N) (name : list N) : outcome (list N) :=
+(* open and read one stream by its path *)
+Definition cfb_get_stream (fuel : nat) (file : list N) (path : list (list N)) : outcome (list N) :=
   do (c, r) <- cfb_new fuel file;
-  do (b, _, _) <- get_stream c name r;
+  do (b, _, _) <- get_stream c path r;
   Ok b.
 
 (* ================================================================== specification side *)
@@ -524,12 +606,13 @@ Definition spec_stream (c : container) (name : list N) : option (list N) :=
   | None => None
   end.
 
-(* ================================================================== duplicate names, Xls::new *)
+(* ================================================================== hierarchy, Xls::new *)
 (* MS-CFB names are unique per storage only, and the position of an entry in the directory ARRAY
-   is free (the hierarchy is carried by the child / sibling ids).  Cfb::get_stream and
-   Cfb::has_directory scan the flat array: the entry reached for a name is the one in the LOWEST
-   directory slot among all the objects carrying that name, whatever storage holds it and whatever
-   its type.  [first_slot] computes that slot from the container and the layout. *)
+   is free: the hierarchy is carried by the child id of a storage and the left / right sibling
+   ids of its children.  Since the fix of audit finding G8 Cfb::find follows them (the sibling
+   tree of each storage on the path is visited whole); a file whose root entry links to no child
+   is still scanned as a flat array: the entry reached is then the one in the LOWEST directory slot
+   among all the objects carrying the name ([first_slot]). *)
 Definition item_name (it : list N * N * N * N) : list N := fst (fst (fst it)).
 Fixpoint min_slot (n : list N) (tbl : list (N * (list N * N * N * N))) : option N :=
   match tbl with
@@ -545,57 +628,76 @@ Definition first_slot (c : container) (l : layout) (n : list N) : option N := mi
 Definition stream_slot (c : container) (l : layout) (k : nat) : option N :=
   nth_error (l_slots l) (length (c_storages c) + k).
 
+(* objects are numbered 0 = the root storage, j >= 1 = the j-th of all_names (storages first, then
+   streams): the numbering c_parents uses for storages *)
+Definition obj_slot (l : layout) (p : N) : N :=
+  if p =? 0 then 0 else nth (N.to_nat p - 1) (l_slots l) 0.
+
+(* specification of a lookup: the child named n of object p — the (k+1)-th object, where k is the
+   first index with that name and that parent (hier_okb: there is at most one) *)
+Fixpoint child_index (c : container) (p : N) (n : list N) (k : nat) (names : list (list N)) : option nat :=
+  match names with
+  | [] => None
+  | n' :: r => if list_eqb n' n && (parent_of c k =? p) then Some k else child_index c p n (S k) r
+  end.
+Fixpoint resolve (c : container) (p : N) (path : list (list N)) : option N :=
+  match path with
+  | [] => Some p
+  | n :: rest =>
+    match child_index c p n 0 (all_names c) with
+    | Some k => resolve c (N.of_nat (S k)) rest
+    | None => None
+    end
+  end.
+(* the bytes of the stream at [path] from the root storage (None: no such object, or a storage) *)
+Definition spec_path (c : container) (path : list (list N)) : option (list N) :=
+  match resolve c 0 path with
+  | Some p =>
+    let ns := N.of_nat (length (c_storages c)) in
+    if ns <? p then
+      match nth_error (c_streams c) (N.to_nat (p - ns) - 1) with Some (_, b) => Some b | None => None end
+    else None
+  | None => None
+  end.
+(* the root storage holds a STORAGE of that name *)
+Definition root_storage_named (c : container) (n : list N) : bool :=
+  match resolve c 0 [n] with
+  | Some p => (1 <=? p) && (p <=? N.of_nat (length (c_storages c)))
+  | None => false
+  end.
+
 (* Xls::parse_workbook:
-     cfb.get_stream("Workbook", &mut reader).or_else(|_| cfb.get_stream("Book", &mut reader))?
+     cfb.get_stream(&["Workbook"], &mut reader).or_else(|_| cfb.get_stream(&["Book"], &mut reader))?
    ANY error of the first lookup (not only StreamNotFound) leads to the second one.  After an I/O
    error the real sector cache may have grown; a sector read depends only on the file body
    (Cfb_proofs.get_in_body), so the second lookup is modelled on the state before the first. *)
 Definition WORKBOOK : list N := [87; 111; 114; 107; 98; 111; 111; 107].
 Definition BOOK : list N := [66; 111; 111; 107].
 Definition workbook_or_book (c : cfb) (r : list N) : outcome (list N) :=
-  match get_stream c WORKBOOK r with
+  match get_stream c [WORKBOOK] r with
   | Ok (b, _, _) => Ok b
-  | Err _ => do (b, _, _) <- get_stream c BOOK r; Ok b
+  | Err _ => do (b, _, _) <- get_stream c [BOOK] r; Ok b
   | Panic => Panic
   | OutOfFuel => OutOfFuel
   end.
-(* Xls::new up to the bytes handed to the BIFF parser (the VBA project, read before when a
-   directory _VBA_PROJECT_CUR exists, does not change which bytes these are) *)
+(* Xls::new up to the bytes handed to the BIFF parser (the VBA project, read before when the root
+   holds _VBA_PROJECT_CUR, does not change which bytes these are) *)
 Definition xls_workbook_stream (fuel : nat) (file : list N) : outcome (list N) :=
   do (c, r) <- cfb_new fuel file; workbook_or_book c r.
 
 (* specification (Excel): the workbook is the stream "Workbook" of the ROOT storage; a file written
    for Excel 5.0/95 has "Book" instead; a dual-format file has both and "Workbook" is preferred *)
-Fixpoint root_stream_from (c : container) (n : list N) (k : nat) (ss : list (list N * list N))
-  : option (nat * list N) :=
-  match ss with
-  | [] => None
-  | (n', b) :: r =>
-    if list_eqb n' n && (parent_of c (length (c_storages c) + k) =? 0) then Some (k, b)
-    else root_stream_from c n (S k) r
-  end.
-Definition root_stream (c : container) (n : list N) : option (nat * list N) :=
-  root_stream_from c n 0 (c_streams c).
-Definition spec_workbook (c : container) : option (nat * list N) :=
-  match root_stream c WORKBOOK with Some x => Some x | None => root_stream c BOOK end.
+Definition spec_workbook (c : container) : option (list N) :=
+  match spec_path c [WORKBOOK] with Some b => Some b | None => spec_path c [BOOK] end.
 
-(* the slot the two lookups of parse_workbook end on / the slot of the stream Excel means *)
-Definition lookup_slot (c : container) (l : layout) : option N :=
-  match first_slot c l WORKBOOK with Some s => Some s | None => first_slot c l BOOK end.
-Definition wanted_slot (c : container) (l : layout) : option N :=
-  match spec_workbook c with Some (k, _) => stream_slot c l k | None => None end.
+(* VbaProject::from_cfb: the storage that holds the project, and the path of one of its streams *)
+Definition VBA_CUR_NAME : list N := [95; 86; 66; 65; 95; 80; 82; 79; 74; 69; 67; 84; 95; 67; 85; 82].
+Definition VBA_NAME : list N := [86; 66; 65].
+Definition vba_storage (c : cfb) : list (list N) :=
+  if has_directory c VBA_CUR_NAME then [VBA_CUR_NAME; VBA_NAME] else [VBA_NAME].
+Definition vba_stream_path (c : cfb) (name : list N) : list (list N) := vba_storage c ++ [name].
 
-(* known class 2 (shadowed_workbook): the container has a workbook stream in its root storage but
-   the flat lookup ends on another entry: an object named Workbook (or Book) of ANOTHER storage
-   — an embedded workbook MBD…/Workbook — sits in a lower directory slot, or the root only has
-   Book while some other storage has a Workbook. *)
-Definition known_C13 (c : container) (l : layout) : option N :=
-  match wanted_slot c l, lookup_slot c l with
-  | Some w, Some s => if s =? w then None else Some 2
-  | _, _ => None
-  end.
-
-(* ------------------------------------------------------------------ legal MS-CFB trees *)
+(* ------------------------------------------------------------------ linked trees *)
 (* MS-CFB 2.6.4: the children of a storage form a binary search tree ordered by (UTF-16 length,
    then upper-cased code units); here upper-casing covers a-z only (the simple case mapping of
    other letters is not modelled: such names compare by code unit).  Colours are not checked
@@ -639,17 +741,23 @@ Fixpoint sorted_namesb (ns : list (list N)) : bool :=
   | a :: ((b :: _) as r) => cfb_name_ltb a b && sorted_namesb r
   | _ => true
   end.
-Definition storage_slot (l : layout) (p : N) : N :=
-  if p =? 0 then 0 else nth (N.to_nat p - 1) (l_slots l) 0.
+Definition storage_slot (l : layout) (p : N) : N := obj_slot l p.
 Definition children_slots (c : container) (l : layout) (p : N) : list N :=
   map fst (filter (fun x => snd x =? p)
                   (combine (l_slots l) (map (parent_of c) (seq 0 (length (l_slots l)))))).
-Definition legal_treeb (c : container) (l : layout) : bool :=
+Definition link_u32b (lk : N * N * N) : bool :=
+  let '(a, b, ch) := lk in (a <? 4294967296) && (b <? 4294967296) && (ch <? 4294967296).
+(* the links are a tree over the hierarchy of the container: every link is a 32-bit value
+   (and NOSTREAM = 0xFFFFFFFF is no entry: the directory has fewer than 2^32 - 1 entries), a
+   stream has no child, and for the root and every storage the sibling tree below its child id
+   holds exactly its children, each once ([sorted]: in the MS-CFB order as well) *)
+Definition tree_okb (sorted : bool) (c : container) (l : layout) : bool :=
   let ltbl := link_table l in
   let lk := link_of ltbl in
   let nsl := N.of_nat (nslots c l) in
   let names := combine (l_slots l) (all_names c) in
   let nst := length (c_storages c) in
+  (nsl <=? FREESECT) && forallb link_u32b (l_links l) &&
   (* a stream has no child *)
   forallb (fun s => let '(_, _, ch) := lk s in ch =? FREESECT) (skipn nst (l_slots l)) &&
   forallb (fun p =>
@@ -658,6 +766,17 @@ Definition legal_treeb (c : container) (l : layout) : bool :=
     match tree_walk (S (length kids)) lk nsl ch (S (length kids)) with
     | Some (vis, _) =>
       (length vis =? length kids)%nat && nodupb vis && forallb (fun s => memN s vis) kids &&
-      sorted_namesb (map (fun s => match assocN s names with Some n => n | None => [] end) vis)
+      (negb sorted ||
+       sorted_namesb (map (fun s => match assocN s names with Some n => n | None => [] end) vis))
     | None => false
     end) (seqN (S nst)).
+(* a legal MS-CFB tree / any tree over the right children (e.g. the right-leaning sibling chains
+   simple writers produce, which are not in the MS-CFB order) *)
+Definition legal_treeb (c : container) (l : layout) : bool := tree_okb true c l.
+Definition linked_treeb (c : container) (l : layout) : bool := tree_okb false c l.
+
+(* no hierarchy written: the child id of the root entry is no entry of the directory (NOSTREAM
+   as a rule) or the root entry itself; Cfb::find then scans the flat array *)
+Definition flat_rootb (c : container) (l : layout) : bool :=
+  let '(_, _, ch) := link_of (link_table l) 0 in
+  (ch mod 4294967296 =? 0) || (N.of_nat (nslots c l) <=? ch mod 4294967296).
